@@ -282,6 +282,8 @@ def verify_unit(name, sources, rlimit=None, keep_dir=None):
         if it.kind == 'fn':
             by_name.setdefault(it.name, []).append(spec.tags)
     rep.fn_tags = by_name
+    if res.verified == 0 and not res.functions and not rep.failures:
+        rep.error = 'verus verified nothing (syntax error in the generated unit?): %s' % res.raw_stderr[-1200:]
     if not res.diags and not res.ok and res.errors == 0:
         rep.error = 'verus reported failure without diagnostics: %s' % res.raw_stderr[-800:]
     return rep
